@@ -86,6 +86,8 @@ def run_case(case):
             for ps, pi, pt in case.get("preload", []):          # what an earlier scan (of other units) left behind
                 mapper.add_type(short_address=ps, instance_number=pi, instance_type=pt)
             gen = mapper.autodiscover(case["addresses"])
+        if case.get("abandon"):
+            return _abandon(rec, gen, answer, case)
         ev, out = drive(gen, answer, 6000)
     except Exception as e:  # noqa: constructor-time refusal
         ev, out = [], {"exc": type(e).__name__, "ret": None}
@@ -118,6 +120,42 @@ def run_case(case):
             ret["k"] = "other"
     rec["ev"] = ev
     rec["out"] = {"exc": out["exc"], "ret": ret}
+    rec["case"] = case
+    return rec
+
+
+def _abandon(rec, gen, answer, case):
+    """run the sequence for case['abandon'][1] commands, then give it up the way case['abandon'][0] says"""
+    import asyncio
+    from .unitsim import drive_iter
+    how, k = case["abandon"]
+    it = drive_iter(gen, answer, 6000)
+    done = None
+    for _ in range(k):
+        try:
+            next(it)
+        except StopIteration as s:
+            done = s.value
+            break
+    res = "none"
+    if done is None:
+        try:
+            if how == "close":
+                gen.close()
+            else:
+                try:
+                    gen.throw(asyncio.CancelledError())
+                    res = "went-on-after-cancellation"
+                except asyncio.CancelledError:
+                    pass
+                except StopIteration:
+                    res = "swallowed-cancellation"
+        except BaseException as e:  # noqa: recorded
+            res = type(e).__name__
+        it.close()
+    rec["seq"] = "abandon"
+    rec["ev"] = []
+    rec["out"] = {"exc": res, "ret": {"k": "none", "bits": [], "bytes": [], "raw": ["none", 0], "map": []}}
     rec["case"] = case
     return rec
 
@@ -221,6 +259,15 @@ def cases(tier, seed):
             for fk in ("silent", "err", "errsame"):
                 cs.append({"seq": "discover", "bus": _bus([dict(d, inst=[dict(i) for i in d["inst"]]) for d in devs], rng, fault=(at, fk)),
                            "addresses": [4, 9], "scan": [4, 9]})
+    # every kind of sequence given up part-way, at every position of a short run and at random ones of long runs
+    base = {}
+    for c in cs:
+        base.setdefault(c["seq"], []).append(c)
+    for seq, lst in sorted(base.items()):
+        for k in range(12 if tier == "quick" else 120):
+            c = rng.choice(lst)
+            pos = k if k < 8 else rng.randrange(1, 60)
+            cs.append(dict(c, abandon=["close" if k % 2 else "cancel", pos]))
     return cs
 
 
